@@ -11,14 +11,15 @@ def main(tier):
     jobs = []
     names = (1, 2, 3, 4) if tier == 'quick' else range(10)
     for i in names:
-        params = {'name_i': i, 'maxdist': 4} if tier == 'quick' else {'name_i': i}
-        jobs.append(dict(path=H, fname='_c11_one', params=params, timeout=400 if tier == 'quick' else 1500, self_reach=True,
-                         label=f'one item, database/taxon/genome text pool entry #{i}',
-                         bounds={'label': '10 texts (commas, quotes, newlines, CR LF, tabs, non-ASCII, empty, padded)', 'predicted': 'none / species / unreportable taxon with reportable ancestor / genus / unreportable taxon without any reportable ancestor',
-                                 'next': 'none / species / genus', 'distance': 'float32 pool (0, 1, 0.1f, 1/3f, denormal, 1-ulp, 2.5e-7)' + (' first 4' if tier == 'quick' else ''),
-                                 'source file': 'present / absent', 'failed strict result with warning and error': 'yes / no'}))
+        for wf in (0, 1):
+            params = {'name_i': i, 'maxdist': 4, 'file': wf} if tier == 'quick' else {'name_i': i, 'file': wf}
+            jobs.append(dict(path=H, fname='_c11_one', params=params, timeout=600 if tier == 'quick' else 1500, self_reach=True,
+                             label=f'one item, database/taxon/genome text pool entry #{i}, source file {"present" if wf else "absent"}',
+                             bounds={'label': '10 texts (commas, quotes, newlines, CR LF, tabs, non-ASCII, empty, padded)', 'predicted': 'none / species / unreportable taxon with reportable ancestor / genus / unreportable taxon without any reportable ancestor',
+                                     'next': 'none / species / genus', 'distance': 'float32 pool (0, 1, 0.1f, 1/3f, denormal, 1-ulp, 2.5e-7)' + (' first 4' if tier == 'quick' else ''),
+                                     'source file': 'present' if wf else 'absent', 'failed strict result with warning and error': 'yes / no', 'archive readers': 'two alive at once, read in the order old, new, old'}))
     if tier == 'quick':
-        jobs.append(dict(path=H, fname='_c11_many', params={'name_i': 1, 'maxitems': 2}, timeout=400, self_reach=True, label='0..2 items, every presence pattern',
+        jobs.append(dict(path=H, fname='_c11_many', params={'name_i': 1, 'maxitems': 2}, timeout=600, self_reach=True, label='0..2 items, every presence pattern',
                          bounds={'items': '0..2', 'patterns': 'predicted x next x failed per item'}))
     else:
         for p0 in range(5):
